@@ -3,7 +3,8 @@
 run the checks that should notice, restore the tree. Never commits to /repo.
 usage: mutate.py [name-substring ...]   (env SECS=10)"""
 import subprocess, sys, os, json, time
-REPO='/repo'
+REPO=os.environ.get('VP_RUN_REPO') or os.environ.get('MUTATE_REPO') or '/repo'
+VERIF=os.path.dirname(os.path.dirname(os.path.abspath(__file__)))
 M=[]
 def m(name, props, file, old, new, count=1):
     M.append(dict(name=name, props=props, file=file, old=old, new=new, count=count))
@@ -375,7 +376,7 @@ def main():
                 print(f"{mu['name']}: does not build: {b.stdout[:300]}"); continue
             for p in mu['props']:
                 t=time.time()
-                r=run(f"cd /verif && VERIF_EVIDENCE_DIR=/verif/.work/evidence-scratch VERIF_SECONDS={secs} ./check {p} quick")
+                r=run(f"cd {VERIF} && VERIF_REPO={REPO} VERIF_EVIDENCE_DIR={VERIF}/.work/evidence-scratch VERIF_SECONDS={secs} ./check {p} quick")
                 lines=[l for l in r.stdout.splitlines() if l.startswith('VIOLATION') or l.strip().startswith('rule=')]
                 rules=[l.strip().split()[0] for l in r.stdout.splitlines() if l.strip().startswith('rule=')]
                 status={0:'MISSED',1:'CAUGHT',2:'MACHINERY'}.get(r.returncode,str(r.returncode))
@@ -388,9 +389,9 @@ def main():
                     mm=re.search(r'replay=(\S+)', r.stdout)
                     if mm:
                         rp=mm.group(1)
-                        r1=run(f"cd /verif && ./check --replay {rp}")
+                        r1=run(f"cd {VERIF} && VERIF_REPO={REPO} ./check --replay {rp}")
                         open(path,'w').write(src)   # restore the tree
-                        r0=run(f"cd /verif && ./check --replay {rp}")
+                        r0=run(f"cd {VERIF} && VERIF_REPO={REPO} ./check --replay {rp}")
                         open(path,'w').write(src.replace(mu['old'],mu['new']))
                         ok = r1.returncode==1 and r0.returncode==0
                         print(f"    replay round trip: with change rc={r1.returncode}, without rc={r0.returncode} -> {'OK' if ok else 'BAD'}", flush=True)
@@ -398,5 +399,6 @@ def main():
         finally:
             open(path,'w').write(src)
     run(f"git -C {REPO} checkout -- .")
-    json.dump(results, open('/verif/.work/mutate_results.json','w'), indent=1)
+    os.makedirs(f'{VERIF}/.work',exist_ok=True); json.dump(results, open(f'{VERIF}/.work/mutate_results.json','w'), indent=1)
+    print('mutants run:', len(results), 'missed:', sum(1 for r in results if r[2]=='MISSED'))
 main()
